@@ -756,6 +756,12 @@ func distinctIdx(i, j *Term) bool {
 }
 
 func Select(a, i *Term) *Term {
+	if i.Op == OIte {
+		n := 40
+		if constLeafIte(i, &n) {
+			return Ite(i.Args[0], Select(a, i.Args[1]), Select(a, i.Args[2]))
+		}
+	}
 	for {
 		switch a.Op {
 		case OStore:
